@@ -34,7 +34,9 @@ WRITABLE = ["x", "y", "z", "r", "type", "tag", "w"]
 
 
 def init_strategy(tier):
-    return gen_tree.tree_case(min_n=1, max_n=20 if tier == "quick" else 60, regimes=["lattice"], soma_root=True, permute=None)
+    t = gen_tree.tree_case(min_n=1, max_n=20 if tier == "quick" else 60, regimes=["lattice"], soma_root=True, permute=None)
+    # the coordinate / radius columns may be non-contiguous views of one xyzr matrix the caller holds
+    return st.tuples(t, st.booleans()).map(lambda v: dict(v[0], strided_columns=v[1]))
 
 
 I2 = lambda tier: st.lists(st.integers(0, 10 ** 6), min_size=2, max_size=2)  # noqa
@@ -62,12 +64,13 @@ class _View:
 class _State:
     def __init__(self, t):
         self.t = t
-        tree = gen_tree.build_tree(t)
+        tree = gen_tree.build_tree(t, strided=bool(t.get("strided_columns")))
         cols = {k: tree.ndata[k].copy() for k in COLS}
         self.owners = [_Owner(tree, cols, "tree")]
         self.views = []
         self.flags = {"write": False, "detached_then_write": False, "have_detached": False, "attached_branch_segments": False,
-                      "negative": False, "slice": False, "mixed_collection": False}
+                      "negative": False, "slice": False, "mixed_collection": False, "kept_subnode": False,
+                      "write_after_kept_subnode": False}
 
 
 def start(init, ctx):
@@ -89,6 +92,15 @@ def _expect(s, view, col):
 def _check_view(s, ctx, v):
     o = s.owners[v.owner]
     label = v.kind + ("" if v.from_tree else "(detached)")
+    if v.kind == "subnode":  # a node handle taken from a path / branch / compartment: reads only
+        i = v.idx[0]
+        nd = v.real
+        for col in ("type", "x", "y", "z", "r", "tag", "w"):
+            got = nd[col]
+            ctx.check(got == o.cols[col][i], "node-of-a-view/reads-its-node", lambda: f"{col}: {got} vs {o.cols[col][i]} (position {i})")
+        ctx.check((nd.x, nd.y, nd.z, nd.r, nd.type) == tuple(o.cols[c][i] for c in ("x", "y", "z", "r", "type")),
+                  "node-of-a-view/properties", "")
+        return
     if v.kind == "node":
         i = v.idx[0]
         nd = v.real
@@ -273,6 +285,9 @@ def apply(s, name, args, ctx):
             j = v.idx[i % m]
             ctx.check((nd.x, nd.y, nd.z, nd.r, nd["tag"]) == tuple(o.cols[c][j] for c in ("x", "y", "z", "r", "tag")),
                       f"{v.kind}/int-index", lambda: f"[{i}] of positions {v.idx}")
+            # the handle is kept: it goes on reporting its node, whatever is written to that node later
+            s.flags["kept_subnode"] = True
+            _add_view(s, ctx, _View("subnode", nd, v.owner, [j], False))
         else:
             try:
                 v.real[i]
@@ -299,6 +314,8 @@ def apply(s, name, args, ctx):
             return
         v = nodes[sel % len(nodes)]
         o = s.owners[v.owner]
+        if s.flags.get("kept_subnode"):
+            s.flags["write_after_kept_subnode"] = True
         if sel % 2:
             ctx.lib("node.attr = v", setattr, v.real, col, val) if col in ("x", "y", "z", "r", "type") else ctx.lib("node[k] = v", v.real.__setitem__, col, val)
         else:
@@ -374,7 +391,9 @@ def invariant(s, ctx):
 
 def finish(s, ctx):
     f = s.flags
-    for k in ("write", "detached_then_write", "attached_branch_segments", "negative", "slice", "mixed_collection"):
+    if s.t.get("strided_columns"):
+        ctx.cls("tree-built-from-strided-columns")
+    for k in ("write", "detached_then_write", "attached_branch_segments", "negative", "slice", "mixed_collection", "write_after_kept_subnode"):
         if f[k]:
             ctx.cls("history:" + k)
     n = len(s.t["parents"])
@@ -388,5 +407,6 @@ SUBCHECKS = [
              "index_path": I2, "collection": I2, "read": I1, "write": WR, "write_owner": WR, "detach": I1, "copy": I1, "adjacency": I1},
             start, apply, invariant, finish, quick=1200, thorough=8000, steps_quick=40, steps_thorough=80, shards_quick=8,
             required={"history:write": 150, "history:detached_then_write": 100, "history:attached_branch_segments": 100,
-                      "history:negative": 60, "history:slice": 60, "history:mixed_collection": 60}),
+                      "history:negative": 60, "history:slice": 60, "history:mixed_collection": 60,
+                      "history:write_after_kept_subnode": 60, "tree-built-from-strided-columns": 200}),
 ]
